@@ -147,6 +147,16 @@ type DocT struct {
 	BaseT
 	Title string `json:"title"`
 }
+type TwoEmb struct {
+	IDt
+	Inner
+	Title string `json:"title"`
+}
+type TwoEmbDeep struct {
+	Lead bool `json:"lead"`
+	TwoEmb
+	*Inner2
+}
 type DocP struct {
 	Head int `json:"head"`
 	*BaseT
@@ -180,7 +190,7 @@ var bank = map[string]reflect.Type{
 	"MyInt8": reflect.TypeFor[MyInt8](), "MyUint16": reflect.TypeFor[MyUint16](), "MyUint": reflect.TypeFor[MyUint](),
 	"MyInt64": reflect.TypeFor[MyInt64](), "MyBool": reflect.TypeFor[MyBool](), "Empty": reflect.TypeFor[Empty](),
 	"Levels": reflect.TypeFor[Levels](), "Markers": reflect.TypeFor[Markers](),
-	"IDt": reflect.TypeFor[IDt](), "BaseT": reflect.TypeFor[BaseT](), "DocT": reflect.TypeFor[DocT](), "DocP": reflect.TypeFor[DocP](),
+	"IDt": reflect.TypeFor[IDt](), "BaseT": reflect.TypeFor[BaseT](), "DocT": reflect.TypeFor[DocT](), "DocP": reflect.TypeFor[DocP](), "TwoEmb": reflect.TypeFor[TwoEmb](), "TwoEmbDeep": reflect.TypeFor[TwoEmbDeep](),
 	"PtrSelf": reflect.TypeFor[PtrSelf](), "PtrA": reflect.TypeFor[PtrA](), "PtrInt": reflect.TypeFor[PtrInt](),
 	"PtrInner": reflect.TypeFor[PtrInner](), "HoldsPtrs": reflect.TypeFor[HoldsPtrs](),
 	"Handler": reflect.TypeFor[Handler](), "IntKeyed": reflect.TypeFor[IntKeyed](), "MyChan": reflect.TypeFor[MyChan](),
